@@ -331,6 +331,17 @@ func (o *Outcome) writeEvidence(okc, viol, known, undec, info, distinct int, idx
 	}
 	sort.Strings(fns)
 	total := okc + viol + known + undec
+	nn := func(a []string) []string {
+		if a == nil {
+			return []string{}
+		}
+		return a
+	}
+	o.Assume = append(nn(o.Assume), "go/types, go/ssa and the CHA call graph of x/tools v0.29.0 model the Go semantics of /repo's source correctly", "the analysed build configurations are the ones listed in coverage.build_configs; packages listed in coverage.packages_not_analysed are outside the verdict")
+	o.SelfTest, o.Vacuous, o.PkgsOK, o.PkgsNot, o.Configs = nn(o.SelfTest), nn(o.Vacuous), nn(o.PkgsOK), nn(o.PkgsNot), nn(o.Configs)
+	if samples == nil {
+		samples = []any{}
+	}
 	cov := map[string]any{
 		"explanation":              o.Explain + " NOT DECIDED by this check: " + o.NotDecided,
 		"obligations":              total,
